@@ -62,7 +62,7 @@ def gen_cases(tier, seed):
         tt = lambda: nasty_text(rng, rng.randint(1, 3))  # noqa: E731
         if h == 'wifi':
             kw = {'ssid': tt(), 'password': rng.choice([None, t(), tt()]),
-                  'security': rng.choice([None, 'WEP', 'WPA', 'wpa', 'nopass', 'wep']), 'hidden': rng.random() < 0.3}
+                  'security': rng.choice([None, 'WEP', 'WPA', 'wpa', 'nopass', 'wep', 'WPA;S:evil', 'WPA2\\', 'a:b']), 'hidden': rng.random() < 0.3}
         elif h == 'mecard':
             kw = {'name': tt()}
             for f in ('reading', 'memo', 'nickname', 'pobox', 'roomno', 'houseno', 'city', 'prefecture', 'zipcode', 'country'):
@@ -73,7 +73,7 @@ def gen_cases(tier, seed):
                 if v is not None:
                     kw[f] = v
             if rng.random() < 0.3:
-                kw['birthday'] = rng.choice(['19700101', '20240229', {'$date': [1999, 12, 31]}])
+                kw['birthday'] = rng.choice(['19700101', '20240229', {'$date': [1999, 12, 31]}, '19700101;TEL:666', '1970:01:01', '1970\\'])
         elif h == 'vcard':
             kw = {'name': rng.choice([tt(), 'Doe;John', 'Doe;John\r\nX-EVIL:1']), 'displayname': tt()}
             for f in ('memo', 'nickname', 'pobox', 'street', 'city', 'region', 'zipcode', 'country', 'org', 'source'):
@@ -84,9 +84,9 @@ def gen_cases(tier, seed):
                 if v is not None:
                     kw[f] = v
             if rng.random() < 0.3:
-                kw['birthday'] = rng.choice(['1970-01-01', '2024-02-29', {'$date': [1999, 12, 31]}])
+                kw['birthday'] = rng.choice(['1970-01-01', '2024-02-29', {'$date': [1999, 12, 31]}, '1970-01-01\n', '1970-01-01\r\nX-EVIL:1', '1970-01-01T10:11:12Z\n'])
             if rng.random() < 0.2:
-                kw['rev'] = rng.choice(['2020-05-05', '2020-05-05T10:11:12Z', {'$date': [2001, 1, 1]}])
+                kw['rev'] = rng.choice(['2020-05-05', '2020-05-05T10:11:12Z', {'$date': [2001, 1, 1]}, '2020-05-05\n'])
             if rng.random() < 0.3:
                 kw['lat'], kw['lng'] = round(rng.uniform(-90, 90), rng.randint(0, 8)), round(rng.uniform(-180, 180), rng.randint(0, 8))
         elif h == 'geo':
@@ -309,6 +309,8 @@ def check_mecard(kw, rec):
     return data
 
 
+_DATE_SHAPED = re.compile(r'\A\d{4}-\d{2}-\d{2}(?:T\d{2}:\d{2}:\d{2}(?:-?\d{2}:\d{2}|Z)?)?\Z')
+
 VCARD_MULTI = [('EMAIL', 'email'), ('TEL', 'phone'), ('TEL;TYPE=FAX', 'fax'), ('TEL;TYPE=VIDEO', 'videophone'), ('TEL;TYPE=CELL', 'cellphone'),
                ('TEL;TYPE=HOME', 'homephone'), ('TEL;TYPE=WORK', 'workphone'), ('URL', 'url'), ('TITLE', 'title'), ('PHOTO;VALUE=uri', 'photo_uri')]
 
@@ -331,6 +333,9 @@ def check_vcard(kw, rec):
         data = helpers.make_vcard_data(**real_kw(kw))
     except ValueError as ex:
         if bool(kw.get('lat')) != bool(kw.get('lng')):
+            return None
+        if any(isinstance(kw.get(f), str) and not _DATE_SHAPED.match(kw[f]) for f in ('birthday', 'rev')):
+            rec.count('vcard_malformed_date_refused')
             return None   # lat/lng of 0 counts as missing: documented precondition "specify latitude and longitude"
         rec.deviation('C16', 'vcard-refused', {'error': str(ex)[:150]})
         return None
